@@ -9,6 +9,51 @@ import (
 
 func init() {
 	zzverif.Register("ops.H_C14", H_C14)
+	zzverif.Register("ops.H_C14_mixed", H_C14_mixed)
+}
+
+func c14Mixed[F zzverif.Scalar](v *zzverif.T) {
+	sa, sb := v.CInts("a"), v.CInts("b")
+	da := zzverif.Syms[float32](v, "a", zzverif.Prod(sa))
+	db := zzverif.Syms[F](v, "b", zzverif.Prod(sb))
+	A, B := zzverif.NewTensor(da, sa), zzverif.NewTensor(db, sb)
+	snapA, snapB := v.Snapshot(A), v.Snapshot(B)
+	outShape, compatible := zzverif.BroadcastShape(sa, sb)
+	var oa, ob tensor.Tensor
+	var err error
+	panicked := v.Try(func() { oa, ob, err = MultidirectionalBroadcast(A, B) })
+	v.Assert("C14.no-panic", !panicked)
+	if panicked {
+		return
+	}
+	v.AssertUnchanged("C14.source-A-unmodified", A, snapA)
+	v.AssertUnchanged("C14.source-B-unmodified", B, snapB)
+	if !compatible {
+		v.Assert("C14.incompatible-is-error", err != nil)
+		return
+	}
+	v.Assert("C14.compatible-is-accepted", err == nil)
+	if err != nil {
+		return
+	}
+	// each operand keeps its own element type
+	v.AssertTensor("C14.A-broadcast", oa, outShape, zzverif.BroadcastData(da, sa, outShape))
+	v.AssertTensor("C14.B-broadcast", ob, outShape, zzverif.BroadcastData(db, sb, outShape))
+}
+
+// H_C14_mixed: the helpers stretch two operands of DIFFERENT element types (float32 and dtypeB), each into a
+// tensor of its own type. case: a, b (shapes); dtypeB
+func H_C14_mixed(v *zzverif.T) {
+	switch v.CStr("dtypeB") {
+	case "bool":
+		c14Mixed[bool](v)
+	case "int64":
+		c14Mixed[int64](v)
+	case "float64":
+		c14Mixed[float64](v)
+	case "uint8":
+		c14Mixed[uint8](v)
+	}
 }
 
 func c14Case[E zzverif.Scalar](v *zzverif.T) {
@@ -17,6 +62,30 @@ func c14Case[E zzverif.Scalar](v *zzverif.T) {
 	da := zzverif.Syms[E](v, "a", zzverif.Prod(sa))
 	db := zzverif.Syms[E](v, "b", zzverif.Prod(sb))
 	A, B := zzverif.NewTensor(da, sa), zzverif.NewTensor(db, sb)
+	// "lazy": that operand (a matrix) is handed over lazily transposed - stored transposed, x.T() applied, no
+	// Transpose(): strides say "transposed", the elements have not moved
+	if v.Has("lazy") {
+		lz := func(d []E, shape []int) tensor.Tensor {
+			r, c := shape[0], shape[1]
+			tr := make([]E, len(d))
+			for i := 0; i < r; i++ {
+				for j := 0; j < c; j++ {
+					tr[j*r+i] = d[i*c+j]
+				}
+			}
+			t := zzverif.NewTensor(tr, []int{c, r})
+			if err := t.(*tensor.Dense).T(); err != nil {
+				panic(err)
+			}
+			return t
+		}
+		if v.CStr("lazy") == "a" && len(sa) == 2 {
+			A = lz(da, sa)
+		}
+		if v.CStr("lazy") == "b" && len(sb) == 2 {
+			B = lz(db, sb)
+		}
+	}
 	snapA, snapB := v.Snapshot(A), v.Snapshot(B)
 	v.Protect("A", A)
 	v.Protect("B", B)
@@ -65,6 +134,24 @@ func c14Case[E zzverif.Scalar](v *zzverif.T) {
 	}
 	// the same tensor OBJECTS again after their contents changed: the helpers are functions of the
 	// operands' current values (a helper that remembers an operand by identity shows here)
+	if v.Has("lazy") {
+		// the same operands a second time: what the first call returned must come back again (a helper that
+		// rearranges a lazily transposed source in place shows here, and in the source checks above)
+		var oa3, ob3 tensor.Tensor
+		p3 := v.Try(func() {
+			if uni {
+				oa3, ob3, err = UnidirectionalBroadcast(A, B)
+			} else {
+				oa3, ob3, err = MultidirectionalBroadcast(A, B)
+			}
+		})
+		v.Assert("C14.no-panic", !p3)
+		if !p3 && err == nil {
+			v.AssertTensor("C14.A-broadcast-again", oa3, outShape, zzverif.BroadcastData(da, sa, outShape))
+			v.AssertTensor("C14.B-broadcast-again", ob3, outShape, zzverif.BroadcastData(db, sb, outShape))
+		}
+		return
+	}
 	da2 := zzverif.Syms[E](v, "a2_", zzverif.Prod(sa))
 	db2 := zzverif.Syms[E](v, "b2_", zzverif.Prod(sb))
 	for i := range da2 {
